@@ -87,6 +87,17 @@ def work(ctx):
                     ncases += 1
                 except E.Unsupported:
                     pass
+        if ncases < (150 if ctx.quick else 1500) and len(k.co_code) < 400 and sum(len(x.co_code) for x in corpus.walk(k)) < 600:
+            try:
+                # premise and conclusion of the canonicity theorem (normal form = function of dis's view) on this object
+                ctx.case("(let code := %s in match mapM (to_const cfg) (co_consts code) with OK ks => match decode_code cfg code ks with OK d => "
+                         "ser_bool (view_wf cfg code ks) ++ ser_bool (zlist_eqb (ser_list (ser_list (ser_instr ser_const)) (cd_blocks (normalize d))) "
+                         "(ser_list (ser_list (ser_instr ser_const)) (blocks_of_view (map_view normalize_const (dis_view cfg (co_code code) (co_names code) "
+                         "(co_varnames code) (co_freevars code) (co_cellvars code) ks (raw_entries (co_linetable code)) (co_firstlineno code)))))) "
+                         "| Err _ => [2] end | Err _ => [3] end)" % E.g_pycode(k), [1, 1], "nz_of_view on %s" % what, "wf-monitor")
+                ncases += 1
+            except E.Unsupported:
+                pass
         ctx.sample({"code": what, "variants": [n for n, _ in variants]})
 
     for origin, k in corpus.code_objects(ctx.tier, rng, limit=6 if ctx.quick else None):
